@@ -159,13 +159,14 @@ type Features struct {
 
 // Runner executes a history against the real engine and a reference map.
 type Runner struct {
-	Env   *Env
-	Stats *Stats
-	Base  string
-	Dir   string
-	Opt   Opt
-	DB    *kv.DB
-	Model map[string][]byte
+	Env      *Env
+	Stats    *Stats
+	Base     string
+	Dir      string
+	Opt      Opt
+	DB       *kv.DB
+	Model    map[string][]byte
+	hugeDone bool
 	// Queued holds ops the generator has already decided on (multi-op idioms)
 	Queued []Op
 	Probe  map[string]struct{} // keys that must be reported not-found
@@ -340,6 +341,14 @@ func (r *Runner) in(key, val []byte) ([]byte, []byte) {
 		k = p.K[:len(key)]
 	}
 	if val != nil {
+		if len(val)+64 > len(p.V) {
+			// the caller's one value buffer grows (a new, larger array, as append would give it)
+			p.V = make([]byte, len(val)+4096)
+			for i := range p.V {
+				p.V[i] = 0x5A
+			}
+			p.shadowV = append([]byte(nil), p.V...)
+		}
 		copy(p.V, val)
 		copy(p.shadowV, val)
 		p.vn = len(val)
